@@ -560,6 +560,8 @@ def run_conc(ctx, scenarios, spec, prop, label, c13=False):
     for s in stats:
         for b in s.get("bad") or []:
             nbad += 1
+            if b.get("outcome") == "panic" and any(x in (b.get("panic") or "") for x in ("bad value id", "unknown compute fn", "unknown cache op", "unknown map op", "idxOfAny")):
+                raise Inconclusive("the harness itself panicked in scenario %s: %s" % (s["scenario"], b.get("panic")))
             if c13:
                 scn = next((x for x in scenarios if x["name"] == s["scenario"]), None)
                 rp = copy.deepcopy(scn)
